@@ -68,3 +68,31 @@ def line_fields(data):
 
 def no_semicolon_clean_end(p):
     return ";" not in p and p.rstrip() == p
+
+
+def le16hex(*words):
+    """hex text of the little-endian 16-bit encoding of the given words (each in 0..65535)"""
+    import binascii
+    import struct
+
+    return binascii.hexlify(struct.pack(f"<{len(words)}H", *words)).decode("utf-8")
+
+
+def hex_of(data):
+    import binascii
+
+    return binascii.hexlify(data).decode("utf-8")
+
+
+def hex_words_ok(s, n):
+    """s is exactly 4n hex digits (n little-endian 16-bit words)"""
+    return is_hex(s, 4 * n)
+
+
+def hex_word(s, i):
+    """word i of a well-formed hex request"""
+    import binascii
+    import struct
+
+    b = binascii.unhexlify(s)
+    return struct.unpack(f"<{len(b) // 2}H", b)[i]
